@@ -12,6 +12,9 @@ hint = {
  "e": "Prefer a change on an error, fault or cancellation path, or at an extreme of a legal argument range: behaviour differs only when a dependency fails at a particular point, a context is cancelled, a callback panics or returns a particular kind of error, or an argument/configuration value is zero, negative, maximal, empty or nil.",
  "f": "Prefer a change in which arithmetic, a comparison or boundary handling is subtly off (off-by-one, <= versus <, integer division or rounding, overflow or wrap-around, a unit conversion, an index or length computation), so that only specific values exactly at a boundary, or a specific size, manifest it; every value the existing tests use must behave as before.",
  "g": "Prefer a change that introduces cross-talk through shared mutable state: a package-level cache or pool, a shared buffer, aliasing of a slice or map, state kept per process or per instance where it must be per key / per call / per object (or the reverse). It must manifest only when two instances, keys, callers or calls are used together or one after the other in a particular way; a single instance used alone must behave exactly as before.",
+ "h": "Prefer a change that only matters under a NON-DEFAULT configuration or a rarely used constructor option / functional option / config field (or a particular combination of two options), or that affects only ONE of several sibling entry points (the Ctx variant versus the plain one, a convenience wrapper, a bulk or batch variant, a package-level helper versus the method); with default configuration and through the most commonly used entry point everything must behave exactly as before.",
+ "i": "Prefer a change in the LIFECYCLE of the mechanism: construction, lazy initialisation, Close/Stop/Drain/shutdown, use after close, closing twice, operations racing with close, re-creation under the same name or key, or state that should be reset (or must NOT be reset) when an object is reused. Steady-state behaviour of a freshly constructed object that is never closed must stay identical to the original.",
+ "j": "Prefer a change in how TIME or ORDER is handled: a timestamp taken at the wrong moment (before instead of after an operation), a deadline/TTL/interval computed from the wrong base, events handled in the wrong order when two arrive in the same tick/batch, a result published before the state it describes is complete, or a stale snapshot used after an update. It must need a specific ordering or a specific time gap to manifest; the orders and gaps the existing tests use must behave as before.",
  "c": "Prefer a change in one of the *secondary* files listed below (a call site, wrapper, middleware, interceptor, adapter, helper or convenience entry point of the mechanism) rather than in its core data structure, and one that needs an unusual but legal input, configuration or sequence to manifest.",
 }[variant]
 extra = ""
